@@ -189,6 +189,8 @@ def arr_getattr(I, ctx, a, name):
         return DType(a.dtype)
     if name == "reshape":
         return B_(lambda ctx, *shape: a)
+    if name == "flat":
+        return a            # 1-D: the flat view indexes the same elements
     if name == "tolist":
         return B_(lambda ctx: SymList(SeqVal(a.n, a.elem, "tolist")) if not isinstance(a.n, int) else ListVal([a.elem(i) for i in range(a.n)]))
     if name == "fill":
